@@ -14,6 +14,7 @@ import (
 	"strings"
 	"unicode"
 
+	"github.com/indexsupply/shovel/dig"
 	shconfig "github.com/indexsupply/shovel/shovel/config"
 	"github.com/indexsupply/shovel/wstrings"
 	cfg "verif/harness/config"
@@ -253,14 +254,85 @@ func fileCase(d desc, doc string, marker *cfg.Marker) lib.Case {
 		apps = append([]string{}, apps...)
 		sort.Strings(apps)
 		sort.Strings(cur)
-		c.Coq += " " + coqTexts(apps) + " " + coqTexts(cur)
+		deps := "[]"
+		if o.Accepted {
+			deps = cfg.CDeps(conf.Integrations)
+		}
+		c.Coq += " " + coqTexts(apps) + " " + coqTexts(cur) + " " + deps
 	}
 	if w.Err != "" {
 		c.OracleOK = false
 		c.OracleMsg = "file path on the wire: " + w.Err
 	}
 	depParam(&c, d, marker, o.Accepted && cfg.Loadable(conf.Sources, conf.Integrations), w.Params)
+	if o.Accepted && c.OracleOK {
+		if msg := refsResolved(conf); msg != "" {
+			c.OracleOK = false
+			c.OracleMsg = msg
+			dd := c.Desc.(desc)
+			dd.Class = "unresolved-filter-ref"
+			c.Desc = dd
+		}
+	}
 	return c
+}
+
+// refsResolved: after ValidateFix every filter_ref of the configuration — on inputs, on their
+// components at any depth, on block fields — is resolved: it names a configured integration,
+// its table is THAT integration's table (a user-supplied table is refused or overwritten), the
+// column is declared for that table, and the referencing integration depends on it.  A filter
+// without integration has neither table nor column.  Returns "" when all are.
+func refsResolved(conf shconfig.Root) string {
+	byName := map[string]shconfig.Integration{}
+	for _, ig := range conf.Integrations {
+		byName[ig.Name] = ig
+	}
+	for _, ig := range conf.Integrations {
+		chk := func(where string, r dig.Ref) string {
+			if r.Integration == "" {
+				if r.Table != "" || r.Column != "" {
+					return fmt.Sprintf("%s of integration %s: filter_ref without integration kept table %q column %q", where, ig.Name, r.Table, r.Column)
+				}
+				return ""
+			}
+			t, ok := byName[r.Integration]
+			switch {
+			case !ok:
+				return fmt.Sprintf("%s of integration %s: filter_ref to unknown integration %q accepted", where, ig.Name, r.Integration)
+			case r.Table != t.Table.Name:
+				return fmt.Sprintf("%s of integration %s: filter_ref to integration %q escaped validation: table %q instead of %q", where, ig.Name, r.Integration, r.Table, t.Table.Name)
+			}
+			dep := false
+			for _, dname := range ig.Dependencies {
+				dep = dep || dname == r.Integration
+			}
+			if !dep {
+				return fmt.Sprintf("%s of integration %s: filter_ref to integration %q but no dependency on it (Dependencies %v)", where, ig.Name, r.Integration, ig.Dependencies)
+			}
+			return ""
+		}
+		var walk func(prefix string, ins []dig.Input) string
+		walk = func(prefix string, ins []dig.Input) string {
+			for _, in := range ins {
+				if m := chk(prefix+in.Name, in.Filter.Ref); m != "" {
+					return m
+				}
+				if m := walk(prefix+in.Name+".", in.Components); m != "" {
+					return m
+				}
+			}
+			return ""
+		}
+		if m := walk("input ", ig.Event.Inputs); m != "" {
+			return m
+		}
+		for _, b := range ig.Block {
+			if m := chk("block field "+b.Name, b.Filter.Ref); m != "" {
+				return m
+			}
+		}
+	}
+	return ""
 }
 
 // depParam: a marker planted in a "dependencies" list must ARRIVE at the database — as a
@@ -301,7 +373,11 @@ func dashCase(d desc, doc string, marker *cfg.Marker) lib.Case {
 	// are searched for the markers as well; `set application_name` is compared with the model
 	c := finish(d, "CDash "+cfg.CClasses(igDoc)+" "+cfg.CStrs(names)+" "+coq, o.Obs, marker, o.AllSQL...)
 	if c.Coq != "" {
-		c.Coq += " " + coqTexts(o.AppNames)
+		deps := "[]"
+		if o.Stored {
+			deps = cfg.CDeps(o.Loaded)
+		}
+		c.Coq += " " + coqTexts(o.AppNames) + " " + deps
 	}
 	if o.Hung {
 		c.OracleOK = false
@@ -450,7 +526,7 @@ func identifierLike(path string) bool {
 
 func run(c lib.Cfg) error {
 	slog.SetDefault(slog.New(slog.NewTextHandler(io.Discard, nil)))
-	out := lib.NewOut("C15", c.Out, header, "run", 160)
+	out := lib.NewOut("C15", c.Out, header, "run", 300)
 	out.Rule = "the configuration decoded and was either rejected by validation or the planted marker occurs in at least one SQL text"
 	if c.Replay != "" {
 		env, err := cfg.NewDashEnv()
